@@ -287,6 +287,18 @@ func genC06(tier string, r *rng) {
 			}
 		}
 	}
+	// Reset to the same / the other side after every kind of history, then a message that fills the buffer
+	for _, sd := range sides {
+		for _, sd2 := range sides {
+			for _, ctor := range []string{"buf:16", "buf:131", "size:128", "bufc:64", "new"} {
+				av := availOf(sd2, ctor)
+				for hi, h := range [][]string{{}, {"w:" + hx(r.bytes(3))}, {"se:c1", "w:" + hx(r.bytes(3)), "ff"}, {"nf", "w:" + hx(r.bytes(200))}, {"w:" + hx(r.bytes(5)), "fl"}} {
+					seq := append(append([]string{}, h...), "rs:"+sd2+":2", "av", "w:"+hx(r.bytes(av)), "av", "fl", "w:"+hx(r.bytes(av+1)), "fl")
+					writerSeq(sd, 1, ctor, "-", "-", 700+hi, seq)
+				}
+			}
+		}
+	}
 	// constructors
 	for _, sd := range sides {
 		for _, ctor := range []string{"new", "size:0", "size:1", "size:125", "size:126", "size:65535", "size:65536", "bufsize:0", "bufsize:2", "bufsize:3", "bufsize:7", "buf:2", "buf:3", "buf:6", "buf:7", "get:1", "get:100", "get:128", "get:129", "get:5000", "get:65536", "get:70000"} {
@@ -342,9 +354,13 @@ func genC06(tier string, r *rng) {
 					seq = append(seq, "se:"+exts[r.intn(4)])
 				}
 			case 13:
-				if r.intn(3) == 0 {
+				switch r.intn(4) {
+				case 0:
 					seq = append(seq, fmt.Sprintf("ro:%d", 1+r.intn(2)))
-				} else {
+				case 1:
+					// Reset: same or other side, drops extensions / flush mode / buffered bytes
+					seq = append(seq, fmt.Sprintf("rs:%s:%d", sides[r.intn(2)], 1+r.intn(2)), "av")
+				default:
 					seq = append(seq, "av")
 				}
 			}
